@@ -416,7 +416,7 @@ PROPS["C19"] = {
 
 PROPS["C01"] = {
     "drivers": [dict(MAIN, timeout=3000)],
-    "rule": "product on the real proxy: 22-23 credential states (none, valid cookie, valid but wrong e-mail domain / group, tampered, truncated, "
+    "rule": "every request of the grid on the cookie store is also given AS SENT (cookies, method, target, peer address) to the composed model serve_request, whose bypass decision and stored credential are computed by the model from the configured rules and the signed-cookie model; product on the real proxy: 22-23 credential states (none, valid cookie, valid but wrong e-mail domain / group, tampered, truncated, "
             "expired, signed with another secret, CSRF cookie under the session name, garbage, ticket for a deleted key, valid bearer, bearer "
             "with other key / wrong audience / expired / alg none, valid basic, wrong password, unknown user, malformed Authorization, "
             "valid cookie + bad bearer; a credential-less request right after an authenticated one) x 11 endpoints (protected paths, API "
@@ -427,7 +427,7 @@ PROPS["C01"] = {
     "assumptions": ["what each credential loader yields is an input of the composition model (decided by the sub-models of C02/C04/C09 and, in "
                     "the correspondence, by the construction of the case)", "gorilla/mux routing is modelled by the regenerated route table"],
     "trusted_base": ["translator go/xlate/routes.go", "construction labels and the bypass / authorisation reference in the driver"],
-    "level_text": "c01_only_if (for every endpoint, configuration, credential situation and request: disclosure => bypass, or a session vouched for "
+    "level_text": "c01_end_to_end / c01_end_to_end_otherwise / c01_end_to_end_ticket (Model/Compose.v: the bypass decision of C15, the signed cookie of C02 - or the ticket and store entry - and the handlers composed as oauthproxy.go composes them: a disclosing answer implies a configured bypass, a loader's word, or a presented cookie whose third field is the MAC of its name, value and timestamp and whose value decodes to an authorised session), c01_only_if (for every endpoint, configuration, credential situation and request: disclosure => bypass, or a session vouched for "
                   "by a loader that also passes the authorisation rules and the auth-only constraints), c01_otherwise (no bypass, no vouched "
                   "session => sign-in page, redirect to the provider or 401, nothing disclosed), c01_if, c01_unauthorised, and c01_routes (the "
                   "regenerated route table registers every disclosing handler behind the session chain; each calls getAuthenticatedSession, "
